@@ -42,7 +42,10 @@ MANIFEST = dict(
                 "checked on the real code."),
     level_note=("Trusted: as C01. Actual latency and the OS socket buffer in front of ssh are outside. That the server's loop "
                 "returns to select (no handler blocks on a descriptor select did not report: host-watch bursts around the read "
-                "size, then a PING, through the real server.main wiring) is decided on the real code only, not by a theorem. Defect found and "
+                "size, then a PING, through the real server.main wiring) is decided on the real code only, not by a theorem; that a pass "
+                "handles every frame that has arrived, and that a PING among them has its PONG queued by the end of that pass, "
+                "are theorems over the model of the pass (C09_pass_handles_every_arrived_frame, C09_ping_answered_in_the_pass, "
+                "Props/C09_Frames.lean) and are checked on the real runonce / Mux.handle. Defect found and "
                 "repaired: server.main raised UnboundLocalError for --latency-buffer-size 0 (see known_findings/C09.json)."),
     technique="Lean 4 proof (invariants of the latency state machine over all schedules) + differential replay + wire-log oracle",
 )
